@@ -93,6 +93,30 @@ pub fn check_flip(libr: &dyn Lib, p: &rf::Params, base: &Tuple, target: u8, bit:
     Ok(())
 }
 
+/// The tuple the flips start from. C05 speaks about tuples that verify: normally the reference-built one;
+/// if the library rejects that (a C02 / C03 matter, judged there), an honest base is re-made with the
+/// library's own signer so that the flips still test something; otherwise the base is skipped and counted.
+fn usable_base(libr: &dyn Lib, p: &rf::Params, base: &BaseSpec, st: &mut Stats) -> Result<Option<Tuple>, Fail> {
+    let t = build(p, base);
+    assert!(rf::verify(p, &t.pk, &t.m, &t.sig, &t.ctx, t.mode).accepted(), "harness: reference rejects a C05 base tuple");
+    if g_verify_bytes(libr, &t.pk, &t.m, &t.sig, &t.ctx, t.mode)? {
+        return Ok(Some(t));
+    }
+    if let BaseSpec::Honest(h) = base {
+        let (pk, sk) = g("keygen_from_seed", || libr.keygen_from_seed(&h.key.bytes()))?;
+        let mut rng = TestRng::replay(&h.rnd.bytes());
+        if let Ok(Ok(sig)) = g_sign(&*sk, &mut rng, &t.m, &t.ctx, t.mode) {
+            let lt = Tuple { pk: g("pk.into_bytes", || pk.to_bytes())?, sig, ..t.clone() };
+            if g_verify_bytes(libr, &lt.pk, &lt.m, &lt.sig, &lt.ctx, lt.mode)? {
+                st.class("base:re-made with the library's signer (library rejects the FIPS 204 tuple; judged by C02/C03)");
+                return Ok(Some(lt));
+            }
+        }
+    }
+    st.class("base:skipped (library rejects the FIPS 204 tuple; judged by C02)");
+    Ok(None)
+}
+
 fn bases(ctx: &Ctx) -> Vec<(u8, BaseSpec, &'static str)> {
     let mut out = Vec::new();
     let per_set = ctx.n(6, 24) as u64;
@@ -138,22 +162,19 @@ pub fn run(ctx: &Ctx, rep: &mut Report) {
     for (set, base, class) in bases(ctx) {
         let libr = libs()[set as usize];
         let p = libr.p();
-        let t = build(&p, &base);
-        // the base tuple must verify (library and reference)
-        let rv = rf::verify(&p, &t.pk, &t.m, &t.sig, &t.ctx, t.mode);
-        assert!(rv.accepted(), "harness: reference rejects a C05 base tuple");
-        match g_verify_bytes(libr, &t.pk, &t.m, &t.sig, &t.ctx, t.mode) {
-            Ok(true) => {}
-            Ok(false) => {
-                rep.violation(sub, Fail::new(format!("base_rejected:set{}", p.id), format!("set {}: base tuple ({class}) accepted by FIPS 204 Verify is rejected by the library", p.id)),
-                    serde_json::to_value(Case { set, base: base.clone(), target: 0, bit: u32::MAX }).expect("ser"));
+        let mut bst = Stats::default();
+        let t = match usable_base(libr, &p, &base, &mut bst) {
+            Ok(Some(t)) => t,
+            Ok(None) => {
+                rep.stats(sub).merge(bst);
                 continue;
             }
             Err(f) => {
                 rep.violation(sub, f, serde_json::to_value(Case { set, base: base.clone(), target: 0, bit: u32::MAX }).expect("ser"));
                 continue;
             }
-        }
+        };
+        rep.stats(sub).merge(bst);
         let targets: Vec<(u8, usize)> = [(0u8, t.sig.len() * 8), (1, t.pk.len() * 8), (2, t.m.len() * 8), (3, t.ctx.len() * 8)]
             .iter()
             .flat_map(|&(tg, n)| (0..n).map(move |b| (tg, b)))
@@ -193,22 +214,77 @@ pub fn run(ctx: &Ctx, rep: &mut Report) {
     }
     let _ = rep.exhaustive.insert(sub.to_string(), false);
     rep.note("every bit position of every base tuple was flipped (exhaustive per tuple; base tuples are sampled)");
+    long_messages(ctx, rep);
+}
+
+/// Long messages at block-structure lengths (multiples of the pre-hash block sizes and of their common
+/// multiples, powers of two, one less / one more): message bits at both ends and on a stride are flipped.
+fn long_messages(ctx: &Ctx, rep: &mut Report) {
+    let sub = "long_message_flips";
+    let lens: Vec<u32> = crate::gen::MSG_LENS.iter().copied().filter(|l| *l >= 1000).collect();
+    let mut cases: Vec<Case> = Vec::new();
+    for set in 0..3u8 {
+        for (li, len) in lens.iter().enumerate() {
+            for mode in 0..4u8 {
+                if ctx.quick() && (li + usize::from(mode) + usize::from(set)) % 2 == 1 && mode == 0 {
+                    continue; // quick tier: half of the pure-mode tuples
+                }
+                let s = hash_of(&(ctx.seed, "c05-long", set, len, mode));
+                let base = BaseSpec::Honest(HonestSpec { key: Seed32::Uniform(s % 4), msg: BytesSpec { len: *len, constant: None, seed: s }, ctx: BytesSpec { len: (s % 3) as u32, constant: None, seed: s ^ 1 }, mode, rnd: Seed32::Uniform(s ^ 2) });
+                cases.push(Case { set, base, target: 2, bit: 0 });
+            }
+        }
+    }
+    let results: Vec<(Stats, Option<(Case, Fail)>)> = cases
+        .par_iter()
+        .map(|c| {
+            let mut st = Stats::default();
+            let libr = libs()[c.set as usize];
+            let p = libr.p();
+            let t = match usable_base(libr, &p, &c.base, &mut st) {
+                Ok(Some(t)) => t,
+                Ok(None) => return (st, None),
+                Err(f) => return (st, Some((Case { bit: u32::MAX, ..c.clone() }, f))),
+            };
+            let nbits = t.m.len() * 8;
+            let mut bits: Vec<usize> = (0..64.min(nbits)).chain(nbits.saturating_sub(512)..nbits).chain((0..nbits).step_by(97)).collect();
+            bits.sort_unstable();
+            bits.dedup();
+            st.class(&format!("msg_len={}", t.m.len()));
+            for b in bits {
+                st.eval();
+                st.nontrivial_enumerated += 1;
+                if let Err(f) = check_flip(libr, &p, &t, 2, b) {
+                    return (st, Some((Case { bit: b as u32, ..c.clone() }, Fail { key: format!("{}:long_message", f.key), what: format!("|M| = {}: {}", t.m.len(), f.what) })));
+                }
+            }
+            (st, None)
+        })
+        .collect();
+    for (st, bad) in results {
+        rep.stats(sub).merge(st);
+        if let Some((c, f)) = bad {
+            if !rep.violations.iter().any(|v| v.sub == sub && v.key == f.key) {
+                rep.violation(sub, f, serde_json::to_value(c).expect("ser"));
+            }
+        }
+    }
 }
 
 pub fn replay(_ctx: &Ctx, sub: &str, case: &Value) -> Option<CheckResult> {
-    if sub != "all_bit_flips" {
+    if sub != "all_bit_flips" && sub != "long_message_flips" {
         return None;
     }
     let c: Case = from_case(case);
     let libr = libs()[c.set as usize % 3];
     let p = libr.p();
-    let t = build(&p, &c.base);
+    let t = match usable_base(libr, &p, &c.base, &mut Stats::default()) {
+        Ok(Some(t)) => t,
+        Ok(None) => return Some(Ok(())),
+        Err(f) => return Some(Err(f)),
+    };
     if c.bit == u32::MAX {
-        return Some(match g_verify_bytes(libr, &t.pk, &t.m, &t.sig, &t.ctx, t.mode) {
-            Ok(true) => Ok(()),
-            Ok(false) => Err(Fail::new(format!("base_rejected:set{}", p.id), "base tuple rejected")),
-            Err(f) => Err(f),
-        });
+        return Some(Ok(()));
     }
     Some(check_flip(libr, &p, &t, c.target, c.bit as usize))
 }
